@@ -55,7 +55,7 @@ class OsShim:
     def __init__(self, exists):
         self._exists = exists
         self.path = types.SimpleNamespace(
-            exists=self._ex, isdir=lambda p: True, join=os.path.join, normpath=os.path.normpath, dirname=os.path.dirname,
+            exists=self._ex, isdir=lambda p: os.path.normpath(p) in (BUDGET, CONFIG_DIR, BUDGET + '/data', BUDGET + '/output'), join=os.path.join, normpath=os.path.normpath, dirname=os.path.dirname,
             abspath=lambda p: p, basename=os.path.basename, relpath=lambda p, *a: p, isfile=self._ex, splitext=os.path.splitext)
         self.sep = os.sep
         self.made = []
@@ -104,6 +104,15 @@ def make_sources(flags):
 
 def canned_txns(i):
     from datetime import datetime
+    if i == 0:
+        # two identical Unknown rows (same day, text and amount) and two merchants whose names differ only in letter case
+        dup = {'date': datetime(2024, 1, 9), 'raw_description': 'PARKING METER 0042', 'description': 'Parking Meter', 'merchant': 'Parking Meter', 'amount': 4.5,
+               'category': 'Unknown', 'subcategory': 'Unknown', 'source': 'Src0', 'tags': [], 'location': None}
+        return [{'date': datetime(2024, 1, 5), 'raw_description': 'UBER EATS 1', 'description': 'UBER EATS', 'merchant': 'UBER EATS', 'amount': 10.0,
+                 'category': 'Food', 'subcategory': 'Delivery', 'source': 'Src0', 'tags': [], 'location': None},
+                {'date': datetime(2024, 1, 6), 'raw_description': 'UBER* EATS 800', 'description': 'Uber Eats', 'merchant': 'Uber Eats', 'amount': 7.0,
+                 'category': 'Unknown', 'subcategory': 'Unknown', 'source': 'Src0', 'tags': [], 'location': None},
+                dict(dup), dict(dup), dict(dup, date=datetime(2024, 1, 12))]
     return [{'date': datetime(2024, 1 + i, 5), 'raw_description': f'RAW{i}A', 'description': f'M{i}', 'merchant': f'M{i}', 'amount': 10.0 + i,
              'category': 'Unknown' if i % 2 == 0 else 'Food', 'subcategory': 'Unknown' if i % 2 == 0 else 'Sub', 'source': f'Src{i}', 'tags': [], 'location': None},
             {'date': datetime(2024, 1 + i, 9), 'raw_description': f'RAW{i}B', 'description': f'N{i}', 'merchant': f'N{i}', 'amount': -3.5 - i,
@@ -111,7 +120,8 @@ def canned_txns(i):
 
 
 class Recorder:
-    def __init__(self, flags, rule_mode='first_match', rules_kind='rules', views=False):
+    def __init__(self, flags, rule_mode='first_match', rules_kind='rules', views=False, real_analyze=False):
+        self.real_analyze = real_analyze
         self.flags = flags
         self.rule_mode = rule_mode
         self.rules_kind = rules_kind
@@ -164,6 +174,9 @@ class Recorder:
 
     def analyze_transactions(self, txns):
         self.calls.append(('analyze', list(txns)))
+        if self.real_analyze:
+            from tally import analyzer
+            return analyzer.analyze_transactions(list(txns))
         return {'by_merchant': {}, 'num_months': 1, 'by_month': {}, 'by_category': {}, 'total': 0, 'count': len(txns), 'monthly_avg': 0}
 
     def classify_by_sections(self, by_merchant, cfg, num_months=12):
@@ -202,7 +215,7 @@ def install(mod, rec, extra=None):
     put(ns, '_check_deprecated_description_cleaning', lambda cfg: None)
     if 'load_supplemental_sources' in ns:
         put(ns, 'load_supplemental_sources', rec.load_supplemental_sources)
-    for name in ('print_summary', 'print_sections_summary', 'write_summary_file_vue', '_print_explain_summary'):
+    for name in ('print_summary', 'print_sections_summary', 'write_summary_file_vue', '_print_explain_summary', '_print_merchant_explanation', '_print_description_explanation'):
         if name in ns:
             put(ns, name, rec.out(name))
     ans = vars(an)
